@@ -442,6 +442,7 @@ class MetaSim(SimEngine):
             script["earlier_solve"] = {
                 "behaviours": [re_.choice(["ok", "ok", "INTERNAL_ERROR", "MEMOUT", "UNSOLVABLE_INCOMPLETELY"]) for _ in range(6)],
                 "timeout": re_.choice([None, 2, 6, 15, 40])}
+            script["_drop_candidates"] = True
         if kind == "if":
             world["goals"] = [goal() for _ in range(ra.choice([0, 1, 1]))]
             x0_init = next(v[1] for f_, v in init if f_[1] == "x0")
@@ -476,6 +477,11 @@ class MetaSim(SimEngine):
             script["timeout"] = rf.choice([0.5, 2.0, 6.0, 15.0, 40.0, 150.0])
             if rf.random() < 0.4:
                 script["jumps"][str(rf.randint(0, 3))] = rf.choice([5.0, 50.0, -30.0])
+        if script.pop("_drop_candidates", False) and re_.random() < 0.5 and len(world["actions"]) >= 2:
+            names = [a["name"] for a in world["actions"]]
+            k_ = re_.randint(1, max(1, len(names) // 2))
+            # (the tail of the action list: in the copy-chain worlds that is where the chain sits)
+            script["earlier_solve"]["drop_actions"] = names[-k_:] if re_.random() < 0.6 else re_.sample(names, k_)
         return script
 
     # ------------------------------------------------------------------ execute
@@ -552,8 +558,17 @@ class MetaSim(SimEngine):
             # an EARLIER solve on the same planner object, with its own peer failures and timeout: whatever it did must
             # not leak into the solve that is judged
             StubPlanner.scenario = Scenario(clock, pre.get("behaviours", []), {}, script["latency"], script["rate"])
+            problem0 = problem
+            if pre.get("drop_actions"):
+                # ... on ANOTHER problem: the same world without some of its actions
+                try:
+                    w0 = dict(world, actions=[a for a in world["actions"] if a["name"] not in pre["drop_actions"]])
+                    problem0 = World(w0, env=envmod.GLOBAL_ENVIRONMENT, strict=True).problem()
+                    ctx.probe("earlier-solve-on-another-problem")
+                except Exception:
+                    problem0 = problem
             try:
-                planner.solve(problem, timeout=pre.get("timeout"))
+                planner.solve(problem0, timeout=pre.get("timeout"))
             except Exception as ex:
                 ctx.ev("earlier solve raised", type(ex).__name__)
             ctx.probe("earlier-solve-on-the-same-planner")
